@@ -52,4 +52,94 @@ theorem decimal_rem_eq (prof : Profile) (x y : Dec) (hp : x.nfrac < 256) (hq : y
           | panic k => rfl
           | ok o => cases o <;> rfl
 
+/-! Integer forms (macro bodies of rem.rs / checked_rem.rs instantiated with `i64`). -/
+
+theorem rem_tail_op (prof : Profile) (a : Int) (p : Nat) (b : Int) (q : Nat) (hp : p < 256) (hq : q < 256) :
+    (do let t ← Gen.K.rem prof a p b q
+        match t with
+        | .ok (coeff, n_frac_digits) => pure (⟨coeff, n_frac_digits⟩ : Dec)
+        | .error _ => Outcome.panic .overflow) =
+      (match remCore a p b q with | .panic k => .panic k | .ok (some d) => .ok d | .ok none => .panic .overflow) := by
+  rw [rem_eq prof a p b q hp hq]
+  cases remCore a p b q with
+  | panic k => rfl
+  | ok o => cases o <;> rfl
+
+theorem rem_tail_checked (prof : Profile) (a : Int) (p : Nat) (b : Int) (q : Nat) (hp : p < 256) (hq : q < 256) :
+    (do let t ← Gen.K.rem prof a p b q
+        match t with
+        | .ok (coeff, n_frac_digits) => pure (some (⟨coeff, n_frac_digits⟩ : Dec))
+        | .error _ => pure none) = remCore a p b q := by
+  rw [rem_eq prof a p b q hp hq]
+  cases remCore a p b q with
+  | panic k => rfl
+  | ok o => cases o <;> rfl
+
+theorem decimal_rem_int_eq (prof : Profile) (x : Dec) (i : Int) (hp : x.nfrac < 256) :
+    Gen.K.decimal_rem_int prof x i = opOfChecked (decide (i = 0)) (remDecInt x i) := by
+  unfold Gen.K.decimal_rem_int opOfChecked remDecInt
+  by_cases hz : i = 0
+  · simp only [hz, decide_true, if_true]
+  · simp only [hz, decide_false, Bool.false_eq_true, if_false]
+    by_cases h0 : eqZero x = true
+    · simp only [h0, if_true, pure_eq']
+    · simp only [h0, Bool.false_eq_true, if_false]
+      by_cases h1 : i = 1
+      · simp only [h1, decide_true, if_true]
+        cases fract x with
+        | panic k => simp only [bind_panic']
+        | ok f => simp only [bind_ok', pure_eq']
+      · simp only [h1, decide_false, Bool.false_eq_true, if_false]
+        exact rem_tail_op prof x.coeff x.nfrac i 0 hp (by decide)
+
+theorem decimal_checked_rem_int_eq (prof : Profile) (x : Dec) (i : Int) (hp : x.nfrac < 256) :
+    Gen.K.decimal_checked_rem_int prof x i = checkedOfChecked (decide (i = 0)) (remDecInt x i) := by
+  unfold Gen.K.decimal_checked_rem_int checkedOfChecked remDecInt
+  by_cases hz : i = 0
+  · simp only [hz, decide_true, if_true, pure_eq']
+  · simp only [hz, decide_false, Bool.false_eq_true, if_false]
+    by_cases h0 : eqZero x = true
+    · simp only [h0, if_true, pure_eq']
+    · simp only [h0, Bool.false_eq_true, if_false]
+      by_cases h1 : i = 1
+      · simp only [h1, decide_true, if_true]
+      · simp only [h1, decide_false, Bool.false_eq_true, if_false]
+        exact rem_tail_checked prof x.coeff x.nfrac i 0 hp (by decide)
+
+theorem int_rem_decimal_eq (prof : Profile) (i : Int) (y : Dec) (hq : y.nfrac < 256) :
+    Gen.K.int_rem_decimal prof i y = opOfChecked (eqZero y) (remIntDec i y) := by
+  unfold Gen.K.int_rem_decimal opOfChecked remIntDec
+  by_cases hz : eqZero y = true
+  · simp only [hz, if_true]
+  · simp only [hz, Bool.false_eq_true, if_false]
+    by_cases h0 : i = 0
+    · simp only [h0, decide_true, if_true, pure_eq', bind_ok']
+    · simp only [h0, decide_false, Bool.false_eq_true, if_false]
+      cases h1 : eqOne y with
+      | panic k => simp only [bind_panic']
+      | ok b1 =>
+        cases b1 with
+        | true => simp only [bind_ok', pure_eq', if_true]
+        | false =>
+          simp only [bind_ok', pure_eq', Bool.false_eq_true, if_false]
+          exact rem_tail_op prof i 0 y.coeff y.nfrac (by decide) hq
+
+theorem int_checked_rem_decimal_eq (prof : Profile) (i : Int) (y : Dec) (hq : y.nfrac < 256) :
+    Gen.K.int_checked_rem_decimal prof i y = checkedOfChecked (eqZero y) (remIntDec i y) := by
+  unfold Gen.K.int_checked_rem_decimal checkedOfChecked remIntDec
+  by_cases hz : eqZero y = true
+  · simp only [hz, if_true, pure_eq']
+  · simp only [hz, Bool.false_eq_true, if_false]
+    by_cases h0 : i = 0
+    · simp only [h0, decide_true, if_true, pure_eq', bind_ok']
+    · simp only [h0, decide_false, Bool.false_eq_true, if_false]
+      cases h1 : eqOne y with
+      | panic k => simp only [bind_panic']
+      | ok b1 =>
+        cases b1 with
+        | true => simp only [bind_ok', pure_eq', if_true]
+        | false =>
+          simp only [bind_ok', pure_eq', Bool.false_eq_true, if_false]
+          exact rem_tail_checked prof i 0 y.coeff y.nfrac (by decide) hq
+
 end Fpdec.Kernels
